@@ -77,8 +77,16 @@ impl Expr<'_> {
         matches!(self, Expr::Content(_)) || self.is_schema_like()
     }
 
-    fn is_uri_like(&self) -> bool {
+    pub(crate) fn is_uri_like(&self) -> bool {
         matches!(self, Expr::Uri(_) | Expr::Relation(_))
+    }
+
+    /// Returns the underlying expression by following references.
+    pub(crate) fn dereference(&self) -> &Self {
+        match self {
+            Expr::Reference(_, v) => v.0.dereference(),
+            e => e,
+        }
     }
 }
 
@@ -311,7 +319,17 @@ pub fn eval_transfer<'a>(
     }
 
     let domain = match transfer.domain() {
-        Some(term) => cast_content(eval_terminal(ctx, term, AnnRef::default())?),
+        Some(term) => {
+            let span = term.node().span();
+            let value = eval_terminal(ctx, term, AnnRef::default())?;
+            // Type tags do not tell contents from ranges.
+            if !value.0.is_content_like() {
+                return Err(
+                    Error::new(Kind::InvalidType, "ill-formed domain, not a content").at(span),
+                );
+            }
+            cast_content(value)
+        }
         None => Content::default(),
     };
 
@@ -342,7 +360,13 @@ pub fn eval_relation<'a>(
     relation: syn::Relation<'a, Core>,
     ann: AnnRef,
 ) -> Result<(Expr<'a>, AnnRef)> {
-    let uri = cast_uri(eval_terminal(ctx, relation.uri(), AnnRef::default())?);
+    let uri = eval_terminal(ctx, relation.uri(), AnnRef::default())?;
+    // Type tags do not tell URIs from alternatives of URIs.
+    if !uri.0.dereference().is_uri_like() {
+        return Err(Error::new(Kind::InvalidType, "ill-formed uri, not a uri")
+            .at(relation.uri().node().span()));
+    }
+    let uri = cast_uri(uri);
 
     let mut xfers = Transfers::default();
     for x in relation.transfers() {
@@ -366,8 +390,15 @@ pub fn eval_program<'a>(
 ) -> Result<(Expr<'a>, AnnRef)> {
     let mut rels = Vec::new();
     for res in program.resources() {
-        let rel = cast_relation(eval_any(ctx, res.relation(), AnnRef::default())?);
-        rels.push(rel);
+        let rel = eval_any(ctx, res.relation(), AnnRef::default())?;
+        // Type tags do not tell relations from alternatives of relations.
+        if !rel.0.dereference().is_uri_like() {
+            return Err(
+                Error::new(Kind::InvalidType, "ill-formed resource, not a relation")
+                    .at(res.relation().span()),
+            );
+        }
+        rels.push(cast_relation(rel));
     }
 
     let mut refs = IndexMap::new();
@@ -531,7 +562,16 @@ pub fn eval_content<'a>(
         let rhs = eval_any(ctx, meta.rhs(), AnnRef::default())?;
         match meta.kind() {
             syn::ContentTagKind::Media => media = Some(cast_string(rhs)),
-            syn::ContentTagKind::Headers => headers = Some(cast_object(rhs)),
+            syn::ContentTagKind::Headers => {
+                // Type tags do not tell objects from combinations of objects.
+                if !matches!(rhs.0.dereference(), Expr::Object(_)) {
+                    return Err(
+                        Error::new(Kind::InvalidType, "ill-formed headers, not an object")
+                            .at(meta.rhs().span()),
+                    );
+                }
+                headers = Some(cast_object(rhs))
+            }
             syn::ContentTagKind::Status => {
                 let s = cast_http_status(rhs).map_err(|_| {
                     Error::new(Kind::InvalidLiteral, "not a valid HTTP status")
